@@ -102,6 +102,15 @@ def boot(log_level=None):
     SOCKET = net.make_socket_facade()
     DATETIME = _make_datetime_facade()
     TIME = _make_time_facade()
+    # import every repo package now so that the state snapshot below is taken
+    # before any repo code has run
+    import tcpcl.session  # noqa: F401
+    import tcpcl.agent  # noqa: F401
+    import bp.app  # noqa: F401
+    import bp.agent  # noqa: F401
+    import udpcl.agent  # noqa: F401
+    import btpu.agent  # noqa: F401
+    reset_process_state()
 
 
 def patch_tcpcl():
@@ -123,3 +132,47 @@ def quiet_scapy():
     by a constant (never in verbose replay). '''
     import scapy.packet
     scapy.packet.Packet.__repr__ = lambda self: '<pkt>'
+
+
+_SNAPSHOT = None
+
+
+def reset_process_state():
+    ''' Restore process-global mutable state of scapy packet classes defined
+    by the repository (layer bindings) to what it was after import, so that a
+    run never depends on which runs preceded it in the same process. '''
+    global _SNAPSHOT
+    import scapy.packet
+    classes = []
+    for (name, mod) in list(sys.modules.items()):
+        fname = getattr(mod, '__file__', None) or ''
+        if not fname.startswith(REPO_SRC):
+            continue
+        for obj in vars(mod).values():
+            if isinstance(obj, type) and issubclass(obj, scapy.packet.Packet) and obj.__module__ == name:
+                classes.append(obj)
+    if _SNAPSHOT is None:
+        _SNAPSHOT = {}
+    for cls in classes:
+        if cls not in _SNAPSHOT:
+            _SNAPSHOT[cls] = (
+                {key: dict(val) for (key, val) in cls.__dict__.get('overload_fields', {}).items()},
+                list(cls.__dict__.get('payload_guess', [])),
+            )
+            continue
+        (over, guess) = _SNAPSHOT[cls]
+        cur = cls.__dict__.get('overload_fields')
+        if cur is not None:
+            for (key, val) in over.items():
+                if key in cur:
+                    if cur[key] != val:
+                        cur[key].clear()
+                        cur[key].update(val)
+                else:
+                    cur[key] = dict(val)
+            for key in list(cur):
+                if key not in over:
+                    del cur[key]
+        curg = cls.__dict__.get('payload_guess')
+        if curg is not None and curg != guess:
+            curg[:] = guess
